@@ -19,6 +19,7 @@ function and construct, never by position.
 
   @staticmethod def f(...)       hoisted to a module-level function; C.f(...) / self.f(...) / cls.f(...) redirected
 
+  all(P(x) for x in (a, b))      P(a) and P(b)       (any -> or; literal tuple of plain names)
   x: T = e                       x = e
   try: B except E: log; raise    B          (handlers that only log and re-raise the same exception, no finally)
 
@@ -184,29 +185,6 @@ class _Replace(ast.NodeTransformer):
 
 
 class Desugar(ast.NodeTransformer):
-    def _block(self, stmts: List[ast.stmt]) -> List[ast.stmt]:
-        out: List[ast.stmt] = []
-        for s in stmts:
-            s = self.visit(s)
-            if isinstance(s, list):
-                out += s
-            elif s is not None:
-                out.append(s)
-        return out
-
-    def generic_visit(self, node):
-        for fld in ("body", "orelse", "finalbody"):
-            v = getattr(node, fld, None)
-            if isinstance(v, list) and v and isinstance(v[0], ast.stmt):
-                setattr(node, fld, self._block(v))
-        if isinstance(node, ast.Try):
-            for h in node.handlers:
-                h.body = self._block(h.body)
-        if isinstance(node, ast.Match):
-            for c in node.cases:
-                c.body = self._block(c.body)
-        return node
-
     def visit_FunctionDef(self, node):
         va = node.args.vararg.arg if node.args.vararg is not None else None
         reassigned = va is not None and any(isinstance(x, ast.Name) and x.id == va and isinstance(x.ctx, ast.Store) for x in ast.walk(node))
@@ -256,6 +234,32 @@ class Desugar(ast.NodeTransformer):
     def visit_Expr(self, node):
         pre = self._hoist(node, "value")
         return pre + [node] if pre else node
+
+    def visit_Call(self, node):
+        # all(P(x) for x in (a, b, c))  ->  P(a) and P(b) and P(c)      any(...)  ->  ... or ...
+        # (a comprehension over a literal tuple of plain names; evaluation order and short-circuiting are the same)
+        self.generic_visit(node)
+        if isinstance(node.func, ast.Name) and node.func.id in ("all", "any") and len(node.args) == 1 and not node.keywords \
+                and isinstance(node.args[0], (ast.GeneratorExp, ast.ListComp)):
+            ge = node.args[0]
+            if len(ge.generators) == 1 and not ge.generators[0].ifs and isinstance(ge.generators[0].target, ast.Name) \
+                    and isinstance(ge.generators[0].iter, (ast.Tuple, ast.List)) and 0 < len(ge.generators[0].iter.elts) <= 8 \
+                    and all(isinstance(x, ast.Name) for x in ge.generators[0].iter.elts):
+                var = ge.generators[0].target.id
+
+                class Sub(ast.NodeTransformer):
+                    def __init__(self, repl):
+                        self.repl = repl
+
+                    def visit_Name(self, n):
+                        if n.id == var and isinstance(n.ctx, ast.Load):
+                            return ast.copy_location(ast.Name(id=self.repl, ctx=ast.Load()), n)
+                        return n
+
+                vals = [Sub(x.id).visit(copy.deepcopy(ge.elt)) for x in ge.generators[0].iter.elts]
+                new = vals[0] if len(vals) == 1 else ast.BoolOp(op=ast.And() if node.func.id == "all" else ast.Or(), values=vals)
+                return ast.copy_location(new, node)
+        return node
 
     def visit_AnnAssign(self, node):
         # x: T = e  ->  x = e   (a bare declaration `x: T` has no effect at run time)
@@ -337,7 +341,6 @@ def _hoist_staticmethods(tree: ast.Module) -> None:
 
 def desugar(tree: ast.Module) -> ast.Module:
     _hoist_staticmethods(tree)
-    d = Desugar()
-    tree.body = d._block(tree.body)
+    tree = Desugar().visit(tree)
     ast.fix_missing_locations(tree)
     return tree
